@@ -227,8 +227,36 @@ def valid_files(rng, n):
     for i in range(n):
         trs = small_tracks(rng)
         layout = "moov_first" if i % 2 == 0 else "mdat_first"
-        r, tracks, nodes = isogen.build_movie(trs, layout)
+        udta = None
+        if i % 3 == 1:
+            udta = isogen.udta([isogen.meta([isogen.ilst([isogen.ilst_item(isogen.TITLE, 1, b"Title"), isogen.ilst_item(isogen.YEAR, 1, b"1999"),
+                                                           isogen.ilst_item(isogen.POSTER, 13, b"\xff\xd8\xff"), isogen.ilst_item(b"\xa9too", 1, b"enc")]),
+                                             isogen.Box("free", [isogen.Raw(b"pad")])], fullbox=(i % 2 == 0))])
+        elif i % 3 == 2:
+            # a meta box with another handler: its children are kept as raw boxes; a second hdlr child is skipped
+            udta = isogen.udta([isogen.meta([isogen.Box("xml ", [isogen.Raw(b"<a/>")]), isogen.hdlr("mdta", b"again\0"), isogen.Box("keys", [isogen.Raw(b"\0" * 8)])],
+                                            fullbox=True, handler="mdta")])
+        extra = []
+        if i % 4 == 0:
+            extra = [isogen.emsg(0, 1000, 5, 6, 7, b"urn:scheme", b"val", b"\x01\x02\x03")]
+        elif i % 4 == 2:
+            extra = [isogen.emsg(1, 90000, 1 << 33, 6, 7, b"u", b"", b""), isogen.Box("free", [isogen.Raw(b"1234")])]
+        r, tracks, nodes = isogen.build_movie(trs, layout, udta=udta, extra_top=extra)
         out.append(("gen%d" % i, r, tracks))
+    return out
+
+
+def trun_bombs(init):
+    """media segments whose trun selects every combination of per-sample fields with a huge sample_count and no entries (C08), opened against `init`"""
+    out = []
+    for bits in range(64):
+        flags = (0x1 if bits & 1 else 0) | (0x4 if bits & 2 else 0) | (0x100 if bits & 4 else 0) | (0x200 if bits & 8 else 0) | (0x400 if bits & 16 else 0) | (0x800 if bits & 32 else 0)
+        for count in (1 << 16, 1 << 28, (1 << 32) - 1):
+            items = [isogen.F(4, count)] + ([isogen.F(4, 0)] if bits & 1 else []) + ([isogen.F(4, 0)] if bits & 2 else [])
+            moof = isogen.Box("moof", [isogen.mfhd(1), isogen.Box("traf", [isogen.tfhd(1), isogen.tfdt(0), isogen.full("trun", 0, flags, items)])])
+            seg = bytes(isogen.render([moof, isogen.Box("mdat", [isogen.Raw(b"abcd")])]).data)
+            out.append(("trun_bomb_%03x_%x" % (flags, count), {"data": init, "frag": seg}))
+            out.append(("trun_bomb1_%03x_%x" % (flags, count), {"data": init + seg}))
     return out
 
 
